@@ -20,5 +20,16 @@ Example C12_accepts_example :
   accepts tx3_grammar 2000 "program" [116;120;32;116;40;32;123;125]%N = Some false.
 Proof. split; vm_compute; reflexivity. Qed.
 
+(** a verdict, once reached, is the verdict at every larger fuel: fuel only decides whether the
+    interpreter answers, never what it answers *)
+Theorem C12_verdict_independent_of_fuel : forall g f atomic e inp pos r,
+  run g f atomic e inp pos = r -> r <> RFuel -> forall f', (f <= f')%nat -> run g f' atomic e inp pos = r.
+Proof. exact run_mono. Qed.
+Theorem C12_verdict_unique : forall g f1 f2 start inp b1 b2,
+  accepts g f1 start inp = Some b1 -> accepts g f2 start inp = Some b2 -> b1 = b2.
+Proof. exact accepts_deterministic. Qed.
+
+Print Assumptions C12_verdict_independent_of_fuel.
+Print Assumptions C12_verdict_unique.
 Print Assumptions C12_grammar_well_formed.
 Print Assumptions C12_matches_are_prefixes.
